@@ -25,10 +25,15 @@ from enum import Enum, IntEnum
 from collections import OrderedDict
 from types import MappingProxyType
 from mashumaro import DataClassDictMixin, pass_through
-from mashumaro.config import BaseConfig
+from mashumaro.config import BaseConfig, ADD_DIALECT_SUPPORT
+from mashumaro.dialect import Dialect
 from mashumaro.types import Discriminator
 from mashumaro.codecs.basic import BasicDecoder
+from mashumaro.mixins.msgpack import DataClassMessagePackMixin
+from mashumaro.mixins.orjson import DataClassORJSONMixin
 
+class NoopDialect(Dialect):
+    pass
 class D2(dict):
     pass
 class Color(Enum):
@@ -471,7 +476,8 @@ def outcome(fn, arg, key_order=None, inst_enc=None):
 # ---------------------------------------------------------------------------
 
 HPOOL = ["int", "str", "date", "Optional[int]", "List[int]", "Inner", "Tuple[int, str]", "Color", "bool", "Dict[str, int]"]
-FLAVOURS = ["config-mixin", "config-codec", "annotated-codec", "annotated-field"]
+FLAVOURS = ["config-mixin", "config-codec", "annotated-codec", "annotated-field", "config-msgpack", "config-orjson"]
+MIXIN_OF = {"config-msgpack": "DataClassMessagePackMixin", "config-orjson": "DataClassORJSONMixin"}
 
 
 def gen_hierarchy(rng, idx: int) -> dict:
@@ -493,16 +499,20 @@ def gen_hierarchy(rng, idx: int) -> dict:
             fields.append({"name": f"v{j}f{i}", "type": t, "mode": mode})
         classes.append({"suffix": f"V{j}", "parent": parent, "tag": f"tag{j}" if tag_style != "none" else None,
                         "tag_style": tag_style, "fields": fields, "forbid": rng.random() < 0.2})
-    return {"idx": idx, "flavour": flavour, "field": field, "classes": classes}
+    # ADD_DIALECT_SUPPORT: calls may pass dialect= (an empty Dialect: same outcome demanded)
+    dialect_support = flavour in ("config-mixin", "config-msgpack", "config-orjson") and rng.random() < 0.6
+    return {"idx": idx, "flavour": flavour, "field": field, "classes": classes, "dialect_support": dialect_support}
 
 
 def hier_source(h: dict, prefix: str) -> str:
     base = f"{prefix}{h['idx']}"
     mixin = h["flavour"] != "config-codec" or True
-    lines = ["@dataclass", f"class {base}(DataClassDictMixin):"]
+    lines = ["@dataclass", f"class {base}({MIXIN_OF.get(h['flavour'], 'DataClassDictMixin')}):"]
     if h["flavour"].startswith("config"):
         lines += ["    class Config(BaseConfig):",
                   f"        discriminator = Discriminator(field={h['field']!r}, include_subtypes=True)"]
+        if h.get("dialect_support"):
+            lines += ["        code_generation_options = [ADD_DIALECT_SUPPORT]"]
     else:
         lines += ["    pass"]
     for c in h["classes"]:
